@@ -11,6 +11,7 @@
 (*   [op |-> "wild", f, t]            letter code -1 is ?, -2 is *               *)
 (*   [op |-> "range", f, lo, hi, haslo, hashi, loexcl, hiexcl]   [lo TO hi] ...  *)
 (*   [op |-> "nrange", f, lo, hi, ...]   the same on the numeric field           *)
+(*   [op |-> "cmp", f, rel, n]        f:<n  f:<=n  f:=<n  f:>n  f:>=n  f:=>n  (GtLtPlugin, numeric field) *)
 (*   [op |-> "boost", e, n]           e^n                                        *)
 (*   [op |-> "fgroup", f, e]          f:(e)                                      *)
 (*   [op |-> "not", e]  [op |-> "and", kids]  [op |-> "or", kids]                *)
@@ -36,7 +37,7 @@ Num(n) == IF n < 0 THEN "-" \o ToString(0 - n) ELSE ToString(n)
 
 \* binding strength of the expression's outermost construct
 Level(e) ==
-  CASE e.op \in {"word", "multi", "phrase", "prefix", "wild", "range", "nrange", "boost", "fgroup"} -> 4
+  CASE e.op \in {"word", "multi", "phrase", "prefix", "wild", "range", "nrange", "boost", "fgroup", "cmp"} -> 4
     [] e.op = "not" -> 3
     [] e.op = "and" -> 2
     [] e.op = "or" -> 1
@@ -62,6 +63,7 @@ Render(e) ==
     [] e.op = "nrange" -> FieldPrefix(e.f) \o (IF e.loexcl THEN "{" ELSE "[")
                          \o (IF e.haslo THEN Num(e.lo) \o " " ELSE "") \o "TO"
                          \o (IF e.hashi THEN " " \o Num(e.hi) ELSE "") \o (IF e.hiexcl THEN "}" ELSE "]")
+    [] e.op = "cmp" -> FieldPrefix(e.f) \o e.rel \o Num(e.n)
     [] e.op = "boost" -> Sub(e.e, 5 - (IF e.e.op \in {"word", "phrase", "prefix", "wild"} THEN 1 ELSE 0)) \o "^" \o ToString(e.n)
     [] e.op = "fgroup" -> e.f \o ":(" \o Render(e.e) \o ")"
     [] e.op = "not" -> "NOT " \o Sub(e.e, 3)
@@ -103,6 +105,11 @@ Meaning(e, cfg, f) ==
              loexcl |-> e.loexcl, hiexcl |-> e.hiexcl, b4 |-> 4])
        [] e.op = "nrange" -> [op |-> "numrange", f |-> e.f, lo |-> e.lo, hi |-> e.hi, haslo |-> e.haslo,
                               hashi |-> e.hashi, loexcl |-> e.loexcl, hiexcl |-> e.hiexcl, b4 |-> 4]
+       \* greater / less than: an open range; with an equals sign (on either side of the angle) the bound is included
+       [] e.op = "cmp" -> LET lower == e.rel \in {">", ">=", "=>"}
+                              incl == e.rel \in {">=", "=>", "<=", "=<"}
+                          IN [op |-> "numrange", f |-> e.f, lo |-> e.n, hi |-> e.n, haslo |-> lower, hashi |-> ~lower,
+                              loexcl |-> ~incl, hiexcl |-> ~incl, b4 |-> 4]
        [] e.op = "boost" -> Meaning(e.e, cfg, f)          \* a boost changes scores, not membership
        [] e.op = "fgroup" -> Meaning(e.e, cfg, e.f)
        [] e.op = "not" -> [op |-> "not", q |-> Meaning(e.e, cfg, f)]
